@@ -156,7 +156,10 @@ int main(int argc, char **argv)
         QJsonObject r;
         r["e"] = "Case";
         r["id"] = c["id"];
-        r["out"] = units(f.format(msg));
+        // what a sink behind this formatter gets: the formatter as a handler of a pipeline, then the message's
+        // formatted text (a result the message takes for "not formatted" would show the raw message instead)
+        f.process(msg);
+        r["out"] = units(msg.formattedMessage());
         r["threadid"] = units(QString::number(msg.threadId()));
         r["qthreadptr"] = units(QStringLiteral("0x") + QString::number(msg.qthreadptr(), 16));
         QJsonObject times;
